@@ -347,23 +347,11 @@ func gErrExpr(c *Ctx, rule string) {
 					}
 				}
 			}
-			ast.Inspect(gf.Decl.Body, func(x ast.Node) bool {
-				se, ok := x.(*ast.SelectorExpr)
-				if ok && se.Sel.Name == "Line" {
-					// expression.Range.{From,To}.Line
-					root := se.X
-					for {
-						if s2, ok := root.(*ast.SelectorExpr); ok {
-							root = s2.X
-							continue
-						}
-						break
-					}
-					if id, ok := root.(*ast.Ident); ok && exprParam != nil && g.info.ObjectOf(id) == exprParam {
-						okLine = true
-					}
+			// expression.Range.{From,To}.Line, read here or in a helper the expression is handed to
+			paramSelectors(g.pkg, gf.Decl, exprParam, 0, func(se *ast.SelectorExpr) {
+				if se.Sel.Name == "Line" {
+					okLine = true
 				}
-				return true
 			})
 			c.check(okLine, rule, gf.Key+"|line-from-expression", c.pos(gf.Decl.Pos()), "Line is computed from the expression parameter's Range",
 				"the expression error handler does not compute Line from its expression's Range")
